@@ -138,6 +138,30 @@ def check_property(prop, tier, seed):
         for f, u in futs.items():
             results[u.name] = f.result()
         kres = kfut.result() if kfut else None
+    # stability retry: a function whose query hit the resource limit is re-run under other SMT seeds; a proof found under
+    # any seed is a proof (recorded as unstable in the evidence), a real failure under another seed is reported as such
+    unstable = []
+    for u in units:
+        r = results[u.name]
+        rl = [x for x in r["undecided"] if x.startswith("rlimit exceeded in ")]
+        if not rl:
+            continue
+        pending = {x.split()[3] for x in rl}
+        for seed_k in (1, 2, 3):
+            if not pending:
+                break
+            r2 = verus.run_verus(u, u.path, extra=["--smt-option", f"smt.random_seed={seed_k}"])
+            rl2 = {x.split()[3] for x in r2["undecided"] if x.startswith("rlimit exceeded in ")}
+            if [x for x in r2["undecided"] if not x.startswith("rlimit exceeded in ")]:
+                continue
+            for fn in sorted(pending - rl2):
+                pending.discard(fn)
+                unstable.append(dict(unit=u.name, function=fn, proved_with_seed=seed_k))
+                r["undecided"] = [x for x in r["undecided"] if not x.startswith(f"rlimit exceeded in {fn} ")]
+                r["diags"] += [d for d in r2["diags"] if ((d.info or {}).get("fn") == fn)]
+                for f in r["funcs"]:
+                    if f["function"].split("::")[-1] == fn.split("::")[-1]:
+                        f["success"] = not any((d.info or {}).get("fn") == fn for d in r2["diags"])
     undecided, failed, other_failed = [], [], 0
     nfunc_ok = nfunc = 0
     vac_expected = vac_failed = 0
@@ -236,6 +260,7 @@ def check_property(prop, tier, seed):
             backends={"verus/z3": nfunc, "kani/cbmc": (kres["nharness"] if kres else 0)},
             solver_time_ms=solver_ms, kani_time_s=(kres["wall"] if kres else 0),
             slowest_functions=[dict(function=f, ms=ms) for ms, f in slow[:5]],
+            unstable_functions=unstable,
             extraction_dropped=dropped,
             assumptions_scan=assumptions_scan,
             vacuity=dict(guards_expected_to_fail=vac_expected, guards_failed_as_expected=vac_failed,
